@@ -39,7 +39,11 @@ def build_factory(cfg):
         LogicalClock.t = 0.0
         tsmod.time = LogicalClock
         R = cfg["R"]
-        sched, info = scheds.make(cfg["kind"], mode=cfg["mode"], seed=cfg["seed"], R=R, mra=cfg.get("mra", True))
+        space = None
+        if cfg.get("grid_size"):
+            from syne_tune.config_space import choice
+            space = {"a": choice([round(0.1 + 0.15 * i, 2) for i in range(cfg["grid_size"])])}
+        sched, info = scheds.make(cfg["kind"], mode=cfg["mode"], seed=cfg["seed"], R=R, mra=cfg.get("mra", True), space=space)
         inj = cfg.get("inject")
         if inj:
             meth, j = inj
@@ -129,6 +133,15 @@ def configs(tier, seed):
                         cfg["mra"] = (pi + ci) % 3 != 0
                         cfg["async"] = not (W == 2 and (pi + ci) % 4 == 1)
                         out.append(cfg)
+    # finite search space whose size is not a multiple of n_workers: exhaustion in the middle of a batch of free workers
+    for W in (2, 3):
+        for gs in (3, 5):
+            for prof in tunerx.PROFILES:
+                if not prof["burst"] and tier == "quick":
+                    continue
+                out.append(dict(kind="fifo-grid", W=W, R=2, mode="min", seed=seed, profile=prof, stop={"max_num_trials_started": 40},
+                                wait=False, k=1 if tier == "quick" else 2, F=0, max_failures=0, grid_size=gs,
+                                max_exec=150 if tier == "quick" else 2000, **{"async": True}))
     # injected scheduler exceptions at every call index up to the horizon
     for kind in ("fifo-random", "hb-promotion"):
         for meth, horizon in (("on_trial_result", 6 if tier == "quick" else 10), ("suggest", 4 if tier == "quick" else 6),
